@@ -1,28 +1,42 @@
-"""./check setup — build everything from files on disk (offline): Coq theories (full .vo), extracted OCaml drivers, Rust harness crates."""
-import os, sys
+"""./check setup — build everything from files on disk (offline): Coq theories (full .vo), extracted OCaml
+drivers, Rust harness crates. Each checks/Cxx.py may declare
+   OCAML   = [(driver_name, [extracted basenames], "ocaml/<driver>.ml")]
+   HARNESS = [(crate, [bins], hooks_on)]"""
+import importlib.util, os, sys
 from vplib import *
 
-OCAML_DRIVERS = [("st_drv", ["st_model"], "ocaml/st_drv.ml")]
-HARNESS = [("st", None, False)]  # (crate, bins, hooks)
+def check_modules():
+    d = os.path.join(VERIF, "checks")
+    for fn in sorted(os.listdir(d)):
+        if fn.endswith(".py"):
+            spec = importlib.util.spec_from_file_location("check_" + fn[:-3], os.path.join(d, fn))
+            m = importlib.util.module_from_spec(spec)
+            spec.loader.exec_module(m)
+            yield fn[:-3], m
 
 def main():
     ok = True
-    errs = regen_tables()
-    for e in errs:
+    for e in regen_tables():
         log("translator error:", e); ok = False
     coq_prepare()
     rc, out, dt = coq_make(["all"], timeout=3400)
     log(f"coq build rc={rc} in {dt:.0f}s")
     if rc != 0:
         log(out[-4000:]); ok = False
-    for name, ex, drv in OCAML_DRIVERS:
+    ocaml, harness = {}, {}
+    for name, m in check_modules():
+        for o in getattr(m, "OCAML", []):
+            ocaml[o[0]] = o
+        for crate, bins, hooks in getattr(m, "HARNESS", []):
+            harness.setdefault((crate, hooks), set()).update(bins or [])
+    for name, ex, drv in ocaml.values():
         rc, out, exe = ocaml_build(name, ex, os.path.join(VERIF, drv))
         log(f"ocaml {name} rc={rc}")
         if rc != 0:
             log(out[-2000:]); ok = False
-    for crate, bins, hooks in HARNESS:
-        rc, out, _ = cargo_build(crate, bins, hooks=hooks)
-        log(f"cargo {crate} rc={rc}")
+    for (crate, hooks), bins in harness.items():
+        rc, out, _ = cargo_build(crate, sorted(bins), hooks=hooks)
+        log(f"cargo {crate} {sorted(bins)} rc={rc}")
         if rc != 0:
             log(out[-4000:]); ok = False
     return 0 if ok else 1
